@@ -1,10 +1,63 @@
 (** C15 — signed-number operations implement integer arithmetic on numeral pairs.
-    BOUNDED in-kernel grid on the generated constants: all four encodings, every pair (p, n) with
-    p, n <= 3 for to_signed / simplify / modulus / neg and p1, n1, p2, n2 <= 2 for add / sub / mul,
-    under NOR and HNO; inputs are arbitrary (not only canonical) pairs. *)
-From LC Require Import Spec.Encodings Model.Reduction Gen.Terms Proofs.Grids.
 
+    On the GENERATED constants of src/data/num/signed.rs, for each of the four supported encodings E and
+    ALL pairs of numerals (p, n) - canonical or not - where [sp E p n] is the pair (E p, E n) denoting
+    the integer [sval p n = p - n], and the canonical pair of an integer z is ([zpos z], [zneg z]):
+    simplify yields the canonical pair of p - n; modulus yields E |p - n|; neg swaps; to_signed x is (x, 0);
+    add / sub / mul yield the canonical pair of the integer sum / difference / product (record [signed_spec]).
+    By C07 reduce(NOR, 0) and reduce(HNO, 0) return exactly these pairs; the bounded grid is kept as an
+    in-kernel evaluation of the model of reduce. *)
+From Coq Require Import ZArith.
+From LC Require Import Spec.Encodings Spec.Confluence Spec.NorEval Model.Reduction Gen.Terms
+  Proofs.Sound Proofs.ReduceProps Proofs.Normalise Proofs.Convert Proofs.Grids Proofs.SignedArith.
+
+Theorem C15_church : signed_spec church lc_num_signed_simplify_church lc_num_signed_modulus_church
+  lc_num_signed_to_signed_church lc_num_signed_add_church lc_num_signed_sub_church lc_num_signed_mul_church.
+Proof. exact signed_church. Qed.
+Theorem C15_scott : signed_spec scott lc_num_signed_simplify_scott lc_num_signed_modulus_scott
+  lc_num_signed_to_signed_scott lc_num_signed_add_scott lc_num_signed_sub_scott lc_num_signed_mul_scott.
+Proof. exact signed_scott. Qed.
+Theorem C15_parigot : signed_spec parigot lc_num_signed_simplify_parigot lc_num_signed_modulus_parigot
+  lc_num_signed_to_signed_parigot lc_num_signed_add_parigot lc_num_signed_sub_parigot lc_num_signed_mul_parigot.
+Proof. exact signed_parigot. Qed.
+Theorem C15_stumpfu : signed_spec stumpfu lc_num_signed_simplify_stumpfu lc_num_signed_modulus_stumpfu
+  lc_num_signed_to_signed_stumpfu lc_num_signed_add_stumpfu lc_num_signed_sub_stumpfu lc_num_signed_mul_stumpfu.
+Proof. exact signed_stumpfu. Qed.
+
+(** the statement unfolded once, to be read without the record: Scott addition *)
+Theorem C15_scott_add_explicit : forall p1 n1 p2 n2,
+  red (App (App lc_num_signed_add_scott (pair_t (scott p1) (scott n1))) (pair_t (scott p2) (scott n2)))
+      (pair_t (scott (Z.to_nat ((Z.of_nat p1 - Z.of_nat n1) + (Z.of_nat p2 - Z.of_nat n2))))
+              (scott (Z.to_nat (- ((Z.of_nat p1 - Z.of_nat n1) + (Z.of_nat p2 - Z.of_nat n2)))))).
+Proof. intros. apply (ss_add _ _ _ _ _ _ _ signed_scott). Qed.
+
+(** canonical pairs have a zero component and denote the integer *)
+Theorem C15_canonical : forall z : Z, (zpos z = 0 \/ zneg z = 0) /\ sval (zpos z) (zneg z) = z.
+Proof. intros z. unfold zpos, zneg, sval. split; lia. Qed.
+
+(** signed pairs of numerals are normal forms, so "reduces to" determines what NOR / HNO return *)
+Theorem C15_pairs_normal : forall p n,
+  nfb (sp church p n) = true /\ nfb (sp scott p n) = true /\ nfb (sp parigot p n) = true /\ nfb (sp stumpfu p n) = true.
+Proof.
+  intros p n. unfold sp, pair_t. cbn [nfb is_abs negb andb].
+  rewrite !church_nf, !scott_nf, !stumpfu_nf. rewrite !(proj1 (parigot_nf _)). repeat split.
+Qed.
+Theorem C15_nor_returns : forall t v, red t v -> nfb v = true -> exists fuel c, reduce_m fuel NOR 0 t = Some (v, c).
+Proof. exact nor_normalises. Qed.
+Theorem C15_hno_returns : forall t v, red t v -> nfb v = true -> exists fuel c, reduce_m fuel HNO 0 t = Some (v, c).
+Proof. exact hno_reduce_normalises. Qed.
+
+(** in-kernel evaluation of the model of reduce on a grid (p, n <= 3; p1, n1, p2, n2 <= 2), NOR and HNO *)
 Theorem C15_bounded_grid : forallb (fun b => b) signed_grid = true.
 Proof. exact signed_grid_ok. Qed.
 
+Print Assumptions C15_church.
+Print Assumptions C15_scott.
+Print Assumptions C15_parigot.
+Print Assumptions C15_stumpfu.
+Print Assumptions C15_scott_add_explicit.
+Print Assumptions C15_canonical.
+Print Assumptions C15_pairs_normal.
+Print Assumptions C15_nor_returns.
+Print Assumptions C15_hno_returns.
 Print Assumptions C15_bounded_grid.
